@@ -492,6 +492,9 @@ fn gen_violation(t: &Tape, plan: &mut T2Plan, known: &[u32], next_id: &mut u32) 
                     (S_ENABLE_PUSH, 2u32, "ENABLE_PUSH = 2"),
                     (S_INITIAL_WINDOW_SIZE, 0x8000_0000u32, "INITIAL_WINDOW_SIZE > 2^31-1"),
                     (S_MAX_FRAME_SIZE, 16_383u32, "MAX_FRAME_SIZE < 2^14"),
+                    (S_MAX_FRAME_SIZE, 0u32, "MAX_FRAME_SIZE < 2^14"),
+                    (S_MAX_FRAME_SIZE, 9u32, "MAX_FRAME_SIZE < 2^14"),
+                    (S_MAX_FRAME_SIZE, 100u32, "MAX_FRAME_SIZE < 2^14"),
                     (S_MAX_FRAME_SIZE, 1u32 << 24, "MAX_FRAME_SIZE > 2^24-1"),
                 ],
             );
@@ -1221,6 +1224,15 @@ fn gen_hpack_invalid(t: &Tape, plan: &mut T2Plan, next_id: &mut u32) {
     }
 }
 
+fn in_dir_of(e_client: bool) -> usize {
+    // direction E receives on: responses (1) for a client, requests (0) for a server
+    if e_client {
+        1
+    } else {
+        0
+    }
+}
+
 // --------------------------------------------------------------------------------------
 // the run
 
@@ -1306,6 +1318,14 @@ pub fn run_t2(profile: &T2Profile, tape: Tape, want_sample: bool) -> RunOut {
     let outcome = loop {
         if exec.step == budget_mark_step {
             budget_mark_bytes = hist.app_bytes();
+        }
+        if exec.step % 256 == 0 {
+            // runaway output (decided by the C08 oracle below): no need to watch it for the
+            // whole step budget
+            let n = net.lock();
+            if n.dirs[e_side].written > 4 * n.dirs[p_side].written + (2 << 20) {
+                break StepOutcome::Quiescent;
+            }
         }
         let o = exec.step_once();
         let ent = match o {
@@ -1471,6 +1491,18 @@ pub fn run_t2(profile: &T2Profile, tape: Tape, want_sample: bool) -> RunOut {
                     }
                 }
             }
+        }
+    }
+    // C08: bounded work per input byte, seen from outside: what E wrote is covered by what its
+    // application submitted and what the peer sent
+    {
+        let n = net.lock();
+        let e_wrote = n.dirs[e_side].written;
+        let p_wrote = n.dirs[p_side].written;
+        let submitted: u64 = hist.with(|h| h.streams.values().map(|s| s.dirs[1 - in_dir_of(plan.e_client)].s_body + 4096).sum());
+        let allowed = 4 * (p_wrote + submitted) + 262_144;
+        if e_wrote > allowed {
+            violations.push(Violation::new("C08", "unbounded-output", plan.label.clone(), format!("[{}] {} wrote {} bytes although its application submitted about {} and the peer sent {}", plan.label, who, e_wrote, submitted, p_wrote), step));
         }
     }
     // C09 / C13 / C11 expectations
